@@ -2,6 +2,7 @@ SPECIFICATION Spec
 CONSTANTS
   Typed = TRUE
   BypassFloat = TRUE
+  BypassDtime = TRUE
   BypassRef = TRUE
   Invalidate = TRUE
   MarkDerived = TRUE
